@@ -143,7 +143,7 @@ class Ctx:
             return False
         v = self.violations.get(key)
         if v is None:
-            self.violations[key] = {'what': what, 'witnesses': [witness], 'count': 1}
+            self.violations[key] = {'what': what, 'witnesses': [witness], 'count': 1, 'hashseed': os.environ.get('PYTHONHASHSEED')}
         else:
             v['count'] += 1
             if len(v['witnesses']) < self.max_witness:
@@ -241,7 +241,8 @@ class Ctx:
             path = REPLAY_DIR / self.pid / f'{key}-{h(v["witnesses"][0])}.json'
             path.parent.mkdir(parents=True, exist_ok=True)
             path.write_text(json.dumps({'property': self.pid, 'key': key, 'what': v['what'], 'count': v['count'],
-                                        'witnesses': v['witnesses'], 'seed': self.seed, 'tier': self.tier},
+                                        'witnesses': v['witnesses'], 'seed': self.seed, 'tier': self.tier,
+                                        'hashseed': v.get('hashseed', os.environ.get('PYTHONHASHSEED'))},
                                        indent=1, ensure_ascii=False, default=str), encoding='utf-8')
             lines.append(f'VIOLATION property={self.pid} replay={path} key={key} count={v["count"]} :: {v["what"][:300]}')
             viol_summ.append({'key': key, 'count': v['count'], 'what': v['what'][:400], 'replay': str(path)})
@@ -271,6 +272,7 @@ class Ctx:
             'verdict': status,
             'repo_head': head,
             'repo_dirty': dirty,
+            'pythonhashseed': os.environ.get('PYTHONHASHSEED'),
         }
         if self.exhaustive is not None:
             cov['exhaustive'] = bool(self.exhaustive)
